@@ -261,3 +261,13 @@ package signedexchange
 //@   ensures[cacheable-b3] ok && e.Version != version.Version1b1 && e.Version != version.Version1b2 ==> cacheableB3(e)
 //@   ensures[no-banned-headers] ok ==> noBannedHeaders(e)
 //@   ensures[b3-content-type] ok && e.Version != version.Version1b1 && e.Version != version.Version1b2 ==> hdrGet(e.ResponseHeaders, "Content-Type") != ""
+
+// The signer signs the message built for exactly this exchange, the SHA-256 of
+// its first certificate, its validity URL and its date/expires in seconds.
+//@ func (*Signer).sign
+//@   props C01 C08
+//@   may_panic
+//@   returns (sig, err)
+//@   requires e != nil && s.ValidityUrl != nil
+//@   ensures[signs-this-exchange] err == nil ==> exists m []byte :: {bytes(m)} signedMsgOf(bytes(m), e, len(s.Certs) == 0 ? emptyBytes() : sha256of(cat(emptyBytes(), bytes(s.Certs[0].Raw))), len(s.Certs) != 0, s.ValidityUrl.String(), s.Date.Unix(), s.Expires.Unix()) && signedWith(s.Algorithm, bytes(m), bytes(sig))
+//@   assigns s.Algorithm
